@@ -10,6 +10,27 @@ Each job is one test binary invocation pattern:
 """
 
 PROPS = {
+    "C01": {
+        "level": "exploration",
+        "jobs": [
+            {"run": "^TestC01", "checks": {"quick": 60, "thorough": 700}, "shards": {"quick": 2, "thorough": 16}},
+        ],
+        "assumptions": [
+            "datagrams are delivered one at a time through the real UDP socket on loopback; completion is observed through the verif-tagged handled counter",
+            "the reference verifier is libsecp256k1 via go-ethereum called on Keccak-256 of independently built signing bytes (cross-checked against a math/big verifier in C15)",
+        ],
+    },
+    "C02": {
+        "level": "exploration",
+        "jobs": [
+            {"run": "^TestC02Exhaustive", "rapid": False, "checks": {"quick": 0, "thorough": 0}, "shards": {"quick": 1, "thorough": 1}},
+            {"run": "^TestC02(RandomHistories|OrderIndependence)", "checks": {"quick": 60, "thorough": 800}, "shards": {"quick": 2, "thorough": 16}},
+        ],
+        "assumptions": [
+            "capacity <= floor((2^64-1)/135), beyond which capacity*135 does not fit 64 bits (DESIGN.md section 6)",
+            "two reports are 'distinct' when their 80 bytes differ (a second valid signature over the same content is a distinct report)",
+        ],
+    },
     "C19": {
         "level": "exploration",
         "jobs": [
@@ -47,6 +68,16 @@ PROPS = {
 
 # Texts for MANIFEST.json.
 META = {
+    "C01": {
+        "technique": "property-based testing of generated datagrams against a reference acceptance predicate and reference server model",
+        "text": "Generated worlds and datagram sequences (random bytes, boundary reports, mutations, re-signings under every other key) are delivered through the real UDP socket at generated clock values; after every datagram the complete server state and the persisted report log are compared with a reference model that only changes for reports satisfying the stated predicate; the public surface is compared at the end of each case. Exploration only.",
+        "note": "Trusts the reference model (harness/ref/model.go), the reference signature verifier and the verif-tagged snapshot accessor (itself cross-checked against the HTTP/TCP surface and the data files).",
+    },
+    "C02": {
+        "technique": "exhaustive enumeration of short report sequences plus stateful and metamorphic property-based testing against the set-valued outcome function",
+        "text": "All 1555 sequences up to length 4 over a 6-letter alphabet are executed on fresh slots; random long histories with replays, second signatures and boundary powers are executed on several devices and slots; the same multiset is delivered in two orders to two fresh servers. The oracle is the property's function of the set of distinct valid reports, checked after every step, plus full-state model comparison for non-interference.",
+        "note": "Exhaustive only for the stated alphabet and length; everything else is sampled. Capacity domain bounded as documented.",
+    },
     "C19": {
         "technique": "property-based testing over generated concurrent arrival schedules, oracle by interval arithmetic on per-call timestamps",
         "text": "Generated (limit, window, goroutines, pattern, pace) schedules are executed with real goroutines against glow.RateLimiter; each call's monotonic [before,after] interval is recorded and a violation is reported only when it is certain for every placement of the true instants inside the intervals (over-admission within one window, or rejection with fewer than limit possible admissions in the preceding window). Exploration only.",
